@@ -17,4 +17,19 @@ theorem hll_add_hashed_eq (b h : Nat) :
   rw [Nat.mul_comm] at this
   omega
 
+/-- the whole `add_hashed` (index, rank, the register read and the `max` write) is the model's `addHashed` -/
+theorem hll_add_hashed_full_eq (s : Hll.St) (h : Nat) :
+    hll_add_hashed s.b s.regs.toList h =
+      match Hll.addHashed s h with
+      | none => Flow.panic
+      | some s' => Flow.cont s'.regs.toList := by
+  have hjp := hll_add_hashed_eq s.b h
+  simp only [hll_add_hashed_jp, Prod.mk.injEq] at hjp
+  obtain ⟨hj, hp⟩ := hjp
+  unfold hll_add_hashed Hll.addHashed
+  simp only [hj, hp, Array.getElem?_toList, Array.length_toList]
+  by_cases hlt : h % 2 ^ s.b < s.regs.size
+  · simp [hlt, Array.getElem?_eq_getElem hlt]
+  · simp [hlt, Array.getElem?_eq_none (Nat.le_of_not_lt hlt)]
+
 end Pds.KernelTie
